@@ -137,7 +137,7 @@ func ZZ_C17_components() { zzRoundTrip(zzWellFormedState(), true) }
 // entry (two incl. empty key and value), a preimage with or without its lookup entry, and a
 // lookup request without preimage. Keys and the preimage are fixed (their digests are the real
 // ones), values and service-info fields are arbitrary.
-//zz:workers=8 paths=20000
+//zz:workers=8 paths=20000 violations=200
 func ZZ_C17_service() {
 	zzvt.ConcreteHashes()
 	s := zzWellFormedState()
@@ -155,7 +155,7 @@ func ZZ_C17_service_sym() {
 }
 
 // ZZ_C17_two_services: two services with ids that differ in one byte.
-//zz:workers=8 paths=200000
+//zz:workers=8 paths=200000 violations=200
 func ZZ_C17_two_services() {
 	zzvt.ConcreteHashes()
 	s := zzWellFormedState()
